@@ -31,7 +31,7 @@ def run_driver(exe, scenarios, threads, tag, timeout=300):
     rounds = 0
     env = dict(os.environ)
     env.update(adt.SAN_ENV)
-    while pending and rounds < 300:
+    while pending and rounds < len(scenarios) + 10:
         rounds += 1
         if os.path.exists(outp):
             os.remove(outp)
